@@ -115,6 +115,17 @@ func Main(args []string) int {
 			o.ForceWide = 9 + 8*(i%2)
 		}
 		comps, root := schemaref.GenSchema(rng, o)
+		if i < len(crafted) {
+			// fixed families for keyword interactions the random grammar does not produce
+			comps, root = map[string]*jsonv.Value{}, "Root"
+			cv, err := jsonv.Parse([]byte(crafted[i]))
+			if err != nil {
+				panic(fmt.Sprintf("crafted family %d: %v", i, err))
+			}
+			for _, m := range cv.Members {
+				comps[m.Name] = m.Value
+			}
+		}
 		prefix := fmt.Sprintf("F%d", i)
 		f := &family{idx: i, comps: rename(comps, prefix), root: prefix + root}
 		fams[i] = f
@@ -535,4 +546,24 @@ func hasRecursion(comps map[string]*jsonv.Value) bool {
 		}
 	}
 	return false
+}
+
+// crafted schema families (components maps with a "Root"): allOf merges in which the keywords of one
+// branch constrain members declared in another, same member constrained in both branches, numeric and
+// string keyword pairs split over branches, nullable/default combinations.
+var crafted = []string{
+	`{"Root":{"allOf":[{"$ref":"#/components/schemas/Base"},{"type":"object","required":["name"]}]},"Base":{"type":"object","properties":{"name":{"type":"string"},"age":{"type":"integer"}}}}`,
+	`{"Root":{"allOf":[{"type":"object","properties":{"name":{"type":"string"},"age":{"type":"integer"}}},{"type":"object","required":["name","age"]}]}}`,
+	`{"Root":{"allOf":[{"type":"object","required":["id"],"properties":{"id":{"type":"integer"}}},{"type":"object","required":["id","tag"],"properties":{"tag":{"type":"string","minLength":2}}}]}}`,
+	`{"Root":{"type":"object","required":["v"],"properties":{"v":{"allOf":[{"type":"number","maximum":10,"exclusiveMaximum":true},{"type":"number","minimum":0}]}}}}`,
+	`{"Root":{"type":"object","required":["v"],"properties":{"v":{"allOf":[{"type":"integer","minimum":1,"exclusiveMinimum":true},{"type":"integer","maximum":8,"exclusiveMaximum":true}]}}}}`,
+	`{"Root":{"type":"object","required":["v"],"properties":{"v":{"allOf":[{"type":"integer","minimum":0},{"type":"integer","maximum":20,"exclusiveMaximum":true,"multipleOf":5}]}}}}`,
+	`{"Root":{"type":"object","required":["s"],"properties":{"s":{"allOf":[{"type":"string","minLength":2},{"type":"string","maxLength":4}]}}}}`,
+	`{"Root":{"type":"object","required":["s"],"properties":{"s":{"allOf":[{"type":"string","pattern":"^[a-z]+$"},{"type":"string","maxLength":3}]}}}}`,
+	`{"Root":{"allOf":[{"type":"object","properties":{"a":{"type":"integer","minimum":1}}},{"type":"object","properties":{"a":{"type":"integer","maximum":5}},"required":["a"]}]}}`,
+	`{"Root":{"type":"object","required":["l"],"properties":{"l":{"allOf":[{"type":"array","items":{"type":"integer"},"minItems":1},{"type":"array","items":{"type":"integer"},"maxItems":3,"uniqueItems":true}]}}}}`,
+	`{"Root":{"type":"object","required":["a","b"],"properties":{"a":{"type":"string","nullable":true,"default":null},"b":{"type":"integer","nullable":true},"c":{"type":"string","nullable":true,"default":null},"d":{"type":"string","default":"x","minLength":1},"e":{"type":"array","items":{"type":"string"},"nullable":true,"minItems":1},"f":{"type":"object","properties":{"g":{"type":"integer"}},"nullable":true}}}}`,
+	`{"Root":{"type":"object","properties":{"m":{"type":"object","additionalProperties":{"type":"integer","minimum":0},"minProperties":1,"maxProperties":2},"n":{"type":"object","additionalProperties":false,"properties":{"k":{"type":"string"}}},"o":{"type":"object","additionalProperties":{"type":"string","nullable":true}}},"required":["m"],"additionalProperties":false}}`,
+	`{"Root":{"oneOf":[{"$ref":"#/components/schemas/Cat"},{"$ref":"#/components/schemas/Dog"}],"discriminator":{"propertyName":"kind","mapping":{"cat":"#/components/schemas/Cat","dog":"#/components/schemas/Dog"}}},"Cat":{"type":"object","required":["kind","lives"],"properties":{"kind":{"type":"string","enum":["cat"]},"lives":{"type":"integer","minimum":1,"maximum":9}},"additionalProperties":false},"Dog":{"type":"object","required":["kind","bark"],"properties":{"kind":{"type":"string","enum":["dog"]},"bark":{"type":"boolean"}},"additionalProperties":false}}`,
+	`{"Root":{"type":"object","required":["u"],"properties":{"u":{"anyOf":[{"type":"string","minLength":3},{"type":"integer","minimum":10},{"type":"array","items":{"type":"boolean"},"maxItems":2}]}}}}`,
 }
